@@ -57,7 +57,7 @@ RULE = ('(1) 2-word x 1-bit MemBlock, (nw,nr) write/read ports: every content (e
         'several initial contents; (2) seeded random designs of 1-4 MemBlocks (addr/data widths 1..70, 1-3 write and '
         '1-3 read ports, free Input addresses or low-bit-tagged addresses) x random histories from an address pool '
         'biased to 0, 2^aw-1, 2^31/2^32/2^63/2^64 neighbours and aliases mod 2^32 / 2^64, disabled ports colliding with '
-        'enabled ones, read-during-write; write ports built in every form the API offers (EnabledWrite, plain <<=, Const enables, and one port '
+        'enabled ones, read-during-write; MemBlock names unique, auto-generated or REPEATED (two memories sharing an explicit name, followed by further memories; ids within a block checked distinct); write ports built in every form the API offers (EnabledWrite, plain <<=, Const enables, and one port '
         'under conditional_assignment with 1-3 branches mixing plain and EnabledWrite values, a disabled write being '
         'either no branch or a taken branch whose own enable is 0); memories with no read port at all (observed through inspect_mem during and after the run); two instances of every simulator kind per design in one '
         'process, memory_value_map keyword omitted when nothing is initialised; (2b) cross-talk family (every third design): 2-3 MemBlocks over one address space, at least two '
@@ -184,6 +184,7 @@ class MemCfg(object):
         # (True) or plain `mem[a] |= d` (False).  The memory then has one effective write port (nw == 1).
         self.branches = list(branches) if branches else None
         self.aux = None        # per-cycle inputs of the conditional form (selector and per-branch operands)
+        self.name = None       # MemBlock name: None = 'mem<k>' (unique), '' = auto-generated, else the given (possibly shared) name
         self.k, self.aw, self.dw, self.nw, self.nr, self.tagged = k, aw, dw, nw, nr, tagged
         self.wk = [tuple(x) for x in wk] if wk else [('in', 'in', 'in', 0)] * nw
         self.rk = list(rk) if rk else ['in'] * nr
@@ -201,6 +202,8 @@ class MemCfg(object):
         if not self.plain():
             d['write_port_sources(addr,data,enable,const addr)'] = [list(w) for w in self.wk]
             d['read_port_sources'] = list(self.rk)
+        if self.name is not None:
+            d['memblock_name'] = self.name
         if self.branches:
             d['conditional_assignment_branches(True=EnabledWrite,False=plain)'] = list(self.branches)
         return d
@@ -224,8 +227,8 @@ def build_design(cfgs):
     pyrtl.reset_working_block()
     for c in cfgs:
         k = c.k
-        m = pyrtl.MemBlock(bitwidth=c.dw, addrwidth=c.aw, name='mem%d' % k, max_read_ports=None,
-                           max_write_ports=None, asynchronous=True)
+        m = pyrtl.MemBlock(bitwidth=c.dw, addrwidth=c.aw, name=('mem%d' % k) if c.name is None else c.name,
+                           max_read_ports=None, max_write_ports=None, asynchronous=True)
         c.mem = m
         if c.branches:
             sel = pyrtl.Input(2, 'm%d_sel' % k)
@@ -262,6 +265,12 @@ def build_design(cfgs):
             ra = _operand(c.rk[j], c.aw, 'm%d_ra%d' % (k, j))
             o = pyrtl.Output(c.dw, 'm%d_o%d' % (k, j))
             o <<= m[ra]
+    ids = [c.mem.id for c in cfgs]
+    if len(set(ids)) != len(ids) and _CTX:
+        # the simulators keep one array per memory id: two memories of one block must never share an id
+        _CTX[0].spec_violation('memblock:two-memories-of-one-block-share-an-id',
+                               'MemBlocks %s of one block were given ids %s' % ([c.mem.name for c in cfgs], ids),
+                               {'memories': [dict(c.desc(), name=c.mem.name, id=c.mem.id) for c in cfgs]})
     if sum(c.nr for c in cfgs) == 0:
         # a design whose memories are only written (log buffers, observed through inspect_mem) still has an interface
         alive = pyrtl.Output(1, 'alive_out')
@@ -1125,6 +1134,19 @@ def _random_chunk(ctx, chk, indices, ncyc_range, compiled_every, post_every, ver
                 tagged = (3 <= aw <= 16) and rng.random() < 0.3
                 cfgs.append(MemCfg(k, aw, dw, nw, nr, tagged))
             pools = [addr_pool(rng, c.aw) for c in cfgs]
+        # MemBlock names: explicit and unique, auto-generated, or explicit names that REPEAT (a helper that names its
+        # MemBlock, called twice) followed by further memories; memories are distinguished by object, never by name
+        scheme = rng.choice(['unique', 'unique', 'auto', 'repeated']) if len(cfgs) > 1 else rng.choice(['unique', 'auto'])
+        if cross and len(cfgs) == 3 and rng.random() < 0.6:
+            scheme = 'repeated'
+        if scheme == 'auto':
+            for c in cfgs:
+                c.name = ''
+        elif scheme == 'repeated':
+            base = rng.choice(['buf', 'fifo_mem', 'table'])
+            for c in cfgs:
+                c.name = base if c.k < 2 else rng.choice([base, 'log', 'mem%d' % c.k, ''])
+        ctx.count('memblock_names', '%s (%d memories)' % (scheme, len(cfgs)))
         for c, pool in zip(cfgs, pools):
             if rng.random() < 0.15:
                 c.nr, c.rk = 0, []       # a memory the design only writes (log buffer): observed through inspect_mem
@@ -2091,6 +2113,7 @@ def replay(real_ctx, data):
     cfg = MemCfg(0, m['addrwidth'], m['bitwidth'], m['write_ports'], m['read_ports'], m.get('tagged_low_bits', False),
                  wk=m.get('write_port_sources(addr,data,enable,const addr)'), rk=m.get('read_port_sources'),
                  branches=m.get('conditional_assignment_branches(True=EnabledWrite,False=plain)'))
+    cfg.name = m.get('memblock_name')
     hist = [([tuple(w) for w in ws], list(rs)) for ws, rs in rep['history']]
     init = [tuple(p) for p in rep.get('memory_value_map', [])]
     dflt = rep.get('default_value', 0)
